@@ -269,15 +269,23 @@ int32_t tls13FindSessionPsk(ssl_t *ssl,
 
         if (idLen >= 16 + 12 + 16)
         {
+            /* The key list is shared with other sessions and may be
+               changed by matrixSslLoad/DeleteSessionTicketKey(s). */
+            matrixSslSessTicketKeysLock();
             key = ssl->keys->sessTickets;
             while (key)
             {
                 if (!Memcmp(id, key->name, 16))
                 {
-                    return tls13DecryptTicket(ssl, key, id, idLen, pskOut);
+                    int32_t rc;
+
+                    rc = tls13DecryptTicket(ssl, key, id, idLen, pskOut);
+                    matrixSslSessTicketKeysUnlock();
+                    return rc;
                 }
                 key = key->next;
             }
+            matrixSslSessTicketKeysUnlock();
         }
 #  endif
     }
